@@ -1,9 +1,121 @@
-(* C06 property theorems: statements only, each closed by `exact`. *)
+(* C06 property theorems: statements only, each closed by `exact`.
+   cd : which code (current = pinned tree; repaired = with proposed_fixes/C06-*.diff), c : output settings,
+   tag : run number, h : walk-order hints (any list), s : state of folder + archive on disk.
+   stored c g s  = the complete result of generation g (.completed, summary, results files, samples table if
+                   enabled) is in the folder (no archive) or inside a complete archive.
+   run_crash .. k v s = the disk after the run is killed at its k-th file-system mutation (v: before it /
+                   file created empty / file cut), run_full = after an uninterrupted run. *)
 From Coq Require Import List Bool Arith.
-From PAFC06 Require Import Model Proofs.
+From PAFC06 Require Import Model Proofs Proofs2 Proofs3 Witness.
 Import ListNotations.
 
-Theorem C06_exec_app : forall (a b : list op) (s : fs), exec (a ++ b) s = exec b (exec a s).
-Proof. exact exec_app. Qed.
+(* ---- complete once ---- *)
+(* a stored result is found again: no likelihood evaluation, same best-fit generation, the persisted samples
+   (None when no table is written), and it stays stored.  Guard: search_internal.dill is not truncated. *)
+Theorem C06_complete_once_partial : forall cd c tag h s g,
+  stored c g s -> not_part (eff_dir s Dill) ->
+  plan_out cd c tag h s = inr (mkres g (expected_samples c g) false)
+  /\ plan_sampled cd c tag h s = false
+  /\ stored c g (run_full cd c tag h s).
+Proof. exact complete_once. Qed.
 
-Print Assumptions C06_exec_app.
+(* without the guard it fails on the code as it is: killed while rewriting search_internal.dill after completion *)
+Theorem C06_complete_once_refuted : exists k : nat,
+  let s1 := run_crash current cD 1 [] k VEmpty (s_done cD) in
+  stored cD 0 s1 /\ plan_out current cD 2 [] s1 = inl EOFErr
+  /\ plan_out current cD 3 [] (run_full current cD 2 [] s1) = inl EOFErr.
+Proof. exact complete_once_refuted. Qed.
+
+(* full statement for the repaired code, over every state any history of runs and crashes can produce *)
+Theorem C06_complete_once_repaired : forall c runs tag h g,
+  let s := history repaired c 0 runs empty_fs in
+  stored c g s ->
+  plan_out repaired c tag h s = inr (mkres g (expected_samples c g) false)
+  /\ plan_sampled repaired c tag h s = false
+  /\ stored c g (run_full repaired c tag h s).
+Proof. exact complete_once_repaired. Qed.
+
+(* ---- durable ---- *)
+(* every crash point of every run over a stored result: still stored, or (code as it is only) the run was
+   killed inside the archive write, leaving a truncated archive beside the intact folder *)
+Theorem C06_durable_crash_partial : forall cd c tag h s g k v,
+  stored c g s ->
+  stored c g (run_crash cd c tag h k v s)
+  \/ (fx_zip cd = false /\ fz (run_crash cd c tag h k v s) = ZPartial /\ complete c g (fd (run_crash cd c tag h k v s))).
+Proof. exact durable. Qed.
+
+Theorem C06_durable_run : forall cd c tag h s g, stored c g s -> stored c g (run_full cd c tag h s).
+Proof. exact durable_full. Qed.
+
+(* any history (any number of runs, each killed anywhere or not) that never leaves a truncated archive *)
+Theorem C06_durable_history_partial : forall cd c g runs tag s,
+  stored c g s -> no_partial_zip cd c tag runs s -> stored c g (history cd c tag runs s).
+Proof. exact durable_history_guarded. Qed.
+
+(* the truncated archive is fatal on the code as it is: the next run deletes the folder and raises BadZipFile *)
+Theorem C06_durable_refuted : exists (c : cfg) (g : nat) (s : fs) (k : nat) (v : variant),
+  stored c g s /\
+  let s1 := run_crash current c 1 [] k v s in
+  let s2 := run_full current c 2 [] s1 in
+  plan_out current c 2 [] s1 = inl BadZip /\ ~ stored c g s2 /\
+  fd s2 Marker = Absent /\ fd s2 Summary = Absent /\ fz s2 = ZPartial.
+Proof. exact durable_refuted. Qed.
+
+(* full statement once zip_directory is atomic: every history preserves a stored result *)
+Theorem C06_durable_history_repaired : forall cd c g runs, fx_zip cd = true ->
+  forall tag s, stored c g s -> stored c g (history cd c tag runs s).
+Proof. exact durable_history_zipfix. Qed.
+
+(* ---- resume ---- *)
+(* the reachability invariant holds after every crash point of every run, hence along every history *)
+Theorem C06_invariant_crash : forall cd c tag h s k v, Inv cd c s -> Inv cd c (run_crash cd c tag h k v s).
+Proof. exact inv_crash. Qed.
+
+Theorem C06_invariant_history : forall cd c runs, Inv cd c (history cd c 0 runs empty_fs).
+Proof. exact inv_reachable. Qed.
+
+(* from every reachable state that is not one of the explicitly excluded unreadable situations, an
+   uninterrupted run terminates normally and leaves the complete result it returns *)
+Theorem C06_resume_partial : forall cd c tag h s,
+  Inv cd c s -> recoverable cd c s ->
+  exists r, plan_out cd c tag h s = inr r /\ stored c (r_tag r) (run_full cd c tag h s).
+Proof. exact resume. Qed.
+
+(* the excluded situations are reachable by a single kill on the code as it is *)
+Theorem C06_resume_refuted_lbfgs : exists k : nat,
+  let s1 := run_crash current cL 0 [] k VBefore empty_fs in
+  Inv current cL s1 /\ fz s1 = ZAbsent /\
+  plan_out current cL 1 [] s1 = inl KeyErr /\
+  plan_out current cL 2 [] (run_full current cL 1 [] s1) = inl KeyErr.
+Proof. exact resume_refuted_lbfgs. Qed.
+
+Theorem C06_resume_refuted_start_time : exists k : nat,
+  let s1 := run_crash current cD 0 [] k VEmpty empty_fs in
+  plan_out current cD 1 [] s1 = inl ValueErr /\ plan_out current cD 2 [] (run_full current cD 1 [] s1) = inl ValueErr.
+Proof. exact resume_refuted_start_time. Qed.
+
+Theorem C06_resume_refuted_drawer_time : exists k : nat,
+  let s1 := run_crash current cD 0 [] k VEmpty empty_fs in plan_out current cD 1 [] s1 = inl ValueErr.
+Proof. exact resume_refuted_drawer_time. Qed.
+
+(* full statement for the repaired code: after ANY history the next uninterrupted run succeeds *)
+Theorem C06_resume_repaired : forall c runs tag h,
+  let s := history repaired c 0 runs empty_fs in
+  exists r, plan_out repaired c tag h s = inr r /\ stored c (r_tag r) (run_full repaired c tag h s).
+Proof. exact resume_repaired. Qed.
+
+(* ---- directory walks: the outcome does not depend on the order the file system lists files in ---- *)
+Theorem C06_rmtree_any_order : forall h s r, fd (exec (rm_ops (present (fd s)) h) s) r = Absent.
+Proof. exact exec_rm_all_fd. Qed.
+
+Theorem C06_extract_any_order : forall snap h s r,
+  (forall r, fd s r = Absent) -> fd (exec (extract_ops snap h) s) r = snap r.
+Proof. exact exec_extract_ops_fd. Qed.
+
+Print Assumptions C06_complete_once_partial.
+Print Assumptions C06_durable_crash_partial.
+Print Assumptions C06_durable_history_repaired.
+Print Assumptions C06_invariant_crash.
+Print Assumptions C06_resume_partial.
+Print Assumptions C06_resume_repaired.
+Print Assumptions C06_durable_refuted.
